@@ -343,6 +343,12 @@ fn spawn_on<'vm>(
     use crate::value::PartialApplicationDataDef;
 
     let WithVM { vm, value: action } = action;
+    // The action is rooted in (and run by) `thread` which may not be able to share values with
+    // the calling thread so it must be moved to the heap of `thread` first
+    let action = match thread.deep_clone_value(vm, action.get_variant().get_value()) {
+        Ok(action) => action,
+        Err(err) => return IO::Exception(err.to_string()),
+    };
     let mut action = OwnedFunction::<Action<A>>::from_value(&thread, action.get_variant());
 
     let future = async move {
